@@ -13,7 +13,8 @@ from ..history import Run, draw_op, replay
 from ..oracle.schema import schema
 from ..run import hyp_search, mix, h
 
-RULE = ('k in {2,3} instances (same class / same type, other class / other type; deep copies forked from a live '
+RULE = ('for every (class, attribute) pair: an equal-but-wrongly-typed value (1.0 / True for 1) gets the same verdict from a fresh element before and after another element was given the valid spelling; '
+        'k in {2,3} instances (same class / same type, other class / other type; deep copies forked from a live '
         'instance), each with its own Hypothesis-drawn adaptive history incl. failing ops and serialisations, executed '
         'under a drawn interleaving (the harness owns the schedule; single thread).  Oracle: every instance\'s sequence '
         'of observations (both child views by identity label, attributes, value, to_string text / exception + '
@@ -91,8 +92,42 @@ def check_case(case):
     return None
 
 
+def stateless_validation(el, q):
+    """what one instance was given never changes what another instance accepts: an attribute value of the 'wrong'
+    Python type that compares equal to a valid one (1.0 / True for 1) gets the same verdict from a fresh element
+    before and after another element was given the valid spelling"""
+    from ..oracle import lexical
+    from ..driver import fresh, py_name
+    s = schema()
+    t = s.element_type[el]
+    a = [x for x in s.attributes_of(t) if x['qname'] == q][0]
+    dot = py_name(q.split(':')[-1])
+    for txt in lexical.valid_texts(a['type'])[:6]:
+        ok, pv = lexical.python_value_for(a['type'], txt)
+        if not ok or isinstance(pv, bool) or not isinstance(pv, (int, float)):
+            continue
+        alts = [float(pv)] if isinstance(pv, int) else ([int(pv)] if pv == int(pv) else [])
+        alts += [True] if pv == 1 else ([False] if pv == 0 else [])
+        for alt in alts:
+            r0 = call(fresh, el)
+            if not r0.ok:
+                return None
+            before = call(setattr, r0.value, dot, alt).verdict()[0]
+            call(setattr, call(fresh, el).value, dot, pv)
+            after = call(setattr, call(fresh, el).value, dot, alt).verdict()[0]
+            if before != after:
+                return {'kind': 'instance-affected-by-other-instance', 'type': t, 'site': None,
+                        'input': {'stateless': True, 'element': el, 'attribute': q},
+                        'observed': {'value': repr(alt), 'fresh element before': before,
+                                     'fresh element after another one was given %r' % (pv,): after},
+                        'expected': 'the same verdict'}
+    return None
+
+
 def replay_case(rec):
     inp = rec['input']
+    if inp.get('stateless'):
+        return stateless_validation(inp['element'], inp['attribute'])
     if inp.get('panel'):
         # replay on the full panel: the dependence may come from any other class
         s = schema()
@@ -269,6 +304,15 @@ def run_shard(ctx, shard, acc):
     # all 441 classes); shards differ in the campaign that ran before it
     types = sorted(by_type)
     elements = sorted(s.element_type)
+    # every (class, numeric attribute) pair, dealt to the shards: validation is stateless across instances
+    pairs = [(el, a['qname']) for el in elements for a in s.attributes_of(s.element_type[el])
+             if not a['qname'].startswith('xlink:') and a['qname'] not in ('xml:space', 'name')]
+    for el, q in pairs[shard['index']::shard['n']]:
+        f = stateless_validation(el, q)
+        acc.case({'stateless': True, 'element': el, 'attribute': q}, True, 1)
+        acc.count('stateless-attribute-pairs')
+        if f:
+            acc.fail(f, raise_=False)
     f = check_panel(types, elements) if shard['index'] % 4 == 0 else None
     acc.case({'panel': True, 'after_shard': shard['index']}, True, len(types) + len(elements))
     acc.count('panel-types', len(types))
